@@ -532,12 +532,23 @@ Section Closure.
     unfold creates. induction l as [|cv t IH]; intros w HP; simpl; [exact HP|]. apply IH. apply P_init. exact HP.
   Qed.
 
-  Lemma P_obj_remove w k : P w -> P (obj_remove w k).
+  Lemma P_ov_body w k a o : P w -> P (ov_body w k a o).
   Proof.
-    intros HP. unfold obj_remove. destruct (find_agent (w_born w) k) as [a|]; [|exact HP].
-    destruct (ov_of (a_cls a)) as [o|]; [|apply P_dereg; exact HP].
-    apply P_creates. destruct (ov_super o); [apply P_dereg|]; apply P_creates; exact HP.
+    intros HP. unfold ov_body. apply P_creates. destruct (ov_super o); [apply P_dereg|]; apply P_creates; exact HP.
   Qed.
+
+  Lemma P_obj_remove_f fuel : forall w k, P w -> P (obj_remove_f fuel w k).
+  Proof.
+    induction fuel as [|f IH]; intros w k HP; simpl;
+      (destruct (find_agent (w_born w) k) as [a|]; [|exact HP]);
+      (destruct (ov_of (a_cls a)) as [o|]; [|apply P_dereg; exact HP]);
+      (destruct (ov_partner o); [|apply P_ov_body; exact HP]).
+    - apply P_ov_body. exact HP.
+    - destruct (partner_target (ov_body w k a o) k a); [apply IH|]; apply P_ov_body; exact HP.
+  Qed.
+
+  Lemma P_obj_remove w k : P w -> P (obj_remove w k).
+  Proof. apply P_obj_remove_f. Qed.
 
   Lemma P_fold_remove l : forall w, P w -> P (fold_left obj_remove l w).
   Proof.
@@ -1054,14 +1065,10 @@ Proof.
 Qed.
 
 (* agent.remove(), overridden or not, touches the agent's own model only; the heap grows by agents of that model *)
-Lemma obj_remove_born w k :
-  exists ext, w_born (obj_remove w k) = w_born w ++ ext /\
-              (forall a' a, In a' ext -> find_agent (w_born w) k = Some a -> a_model a' = a_model a).
+Lemma ov_body_born w k a o :
+  exists ext, w_born (ov_body w k a o) = w_born w ++ ext /\ (forall a', In a' ext -> a_model a' = a_model a).
 Proof.
-  unfold obj_remove. destruct (find_agent (w_born w) k) as [a|] eqn:Ef.
-  2:{ exists []. split; [symmetry; apply app_nil_r|intros a' a []]. }
-  destruct (ov_of (a_cls a)) as [o|].
-  2:{ exists []. unfold agent_remove. rewrite deregister_obj_born. split; [symmetry; apply app_nil_r|intros a' a0 []]. }
+  unfold ov_body.
   destruct (creates_born (a_model a) (ov_pre o) w) as [e1 [H1 H2]].
   set (w1 := creates w (a_model a) (ov_pre o)) in *.
   set (w2 := if ov_super o then agent_remove w1 k else w1).
@@ -1069,27 +1076,96 @@ Proof.
   { unfold w2. destruct (ov_super o); [unfold agent_remove; apply deregister_obj_born|reflexivity]. }
   destruct (creates_born (a_model a) (ov_post o) w2) as [e3 [H3 H4]].
   exists (e1 ++ e3). split; [rewrite H3, E2, H1, app_assoc; reflexivity|].
-  intros a' a0 Ha' Ha0. inversion Ha0; subst a0. apply in_app_or in Ha'. destruct Ha'; auto.
+  intros a' Ha'. apply in_app_or in Ha'. destruct Ha'; auto.
 Qed.
+
+Lemma ov_body_frame w k a o j :
+  find_agent (w_born w) k = Some a -> a_model a <> j ->
+  getm (w_models (ov_body w k a o)) j = getm (w_models w) j.
+Proof.
+  intros Ef Hne. unfold ov_body.
+  assert (j <> a_model a) as Hne' by congruence.
+  rewrite creates_frame by exact Hne'.
+  assert (getm (w_models (creates w (a_model a) (ov_pre o))) j = getm (w_models w) j) as E1 by (apply creates_frame; exact Hne').
+  destruct (ov_super o); [|exact E1].
+  unfold agent_remove. rewrite deregister_obj_frame; [exact E1|].
+  intros a0 Ha0. destruct (creates_born (a_model a) (ov_pre o) w) as [ext [Eb _]]. rewrite Eb in Ha0.
+  rewrite (find_agent_app _ ext _ _ Ef) in Ha0. inversion Ha0; subst. exact Hne.
+Qed.
+
+Lemma partner_target_spec w k a p :
+  partner_target w k a = Some p -> exists b, find_agent (w_born w) p = Some b /\ a_model b = a_model a.
+Proof.
+  unfold partner_target. destruct (a_pay a) as [v|l]; [|discriminate].
+  destruct (v =? k); [discriminate|].
+  destruct (find_agent (w_born w) v) as [b|] eqn:Ef; [|discriminate].
+  destruct (a_model b =? a_model a) eqn:Em; [|discriminate]. apply Z.eqb_eq in Em.
+  destruct (getm (w_models w) (a_model a)) as [ms|]; [|discriminate].
+  destruct (zmem v (m_all ms)); [|discriminate]. intros H. inversion H; subst. eauto.
+Qed.
+
+Lemma obj_remove_f_born fuel : forall w k,
+  exists ext, w_born (obj_remove_f fuel w k) = w_born w ++ ext /\
+              (forall a' a, In a' ext -> find_agent (w_born w) k = Some a -> a_model a' = a_model a).
+Proof.
+  assert (forall w, exists ext : list arec, w_born w = w_born w ++ ext /\ (forall a' (a : arec), In a' ext -> False)) as Hnil.
+  { intros w. exists []. split; [symmetry; apply app_nil_r|intros a' a []]. }
+  induction fuel as [|f IH]; intros w k; simpl.
+  - destruct (find_agent (w_born w) k) as [a|] eqn:Ef.
+    2:{ exists []. split; [symmetry; apply app_nil_r|intros a' a []]. }
+    destruct (ov_of (a_cls a)) as [o|].
+    2:{ exists []. unfold agent_remove. rewrite deregister_obj_born. split; [symmetry; apply app_nil_r|intros a' a0 []]. }
+    destruct (ov_body_born w k a o) as [e [H1 H2]].
+    assert (exists ext, w_born (ov_body w k a o) = w_born w ++ ext /\
+              (forall a' a0, In a' ext -> Some a = Some a0 -> a_model a' = a_model a0)) as Hb.
+    { exists e. split; [exact H1|]. intros a' a0 Ha' E. inversion E; subst. auto. }
+    destruct (ov_partner o); exact Hb.
+  - destruct (find_agent (w_born w) k) as [a|] eqn:Ef.
+    2:{ exists []. split; [symmetry; apply app_nil_r|intros a' a []]. }
+    destruct (ov_of (a_cls a)) as [o|].
+    2:{ exists []. unfold agent_remove. rewrite deregister_obj_born. split; [symmetry; apply app_nil_r|intros a' a0 []]. }
+    destruct (ov_body_born w k a o) as [e [H1 H2]].
+    assert (exists ext, w_born (ov_body w k a o) = w_born w ++ ext /\
+              (forall a' a0, In a' ext -> Some a = Some a0 -> a_model a' = a_model a0)) as Hb.
+    { exists e. split; [exact H1|]. intros a' a0 Ha' E. inversion E; subst. auto. }
+    destruct (ov_partner o); [|exact Hb].
+    destruct (partner_target (ov_body w k a o) k a) as [p|] eqn:Ep; [|exact Hb].
+    destruct (partner_target_spec _ _ _ _ Ep) as [b [Hfb Hmb]].
+    destruct (IH (ov_body w k a o) p) as [e2 [H3 H4]].
+    exists (e ++ e2). split; [rewrite H3, H1, app_assoc; reflexivity|].
+    intros a' a0 Ha' E. inversion E; subst a0. apply in_app_or in Ha'. destruct Ha' as [Ha'|Ha']; [auto|].
+    rewrite (H4 a' b Ha' Hfb). exact Hmb.
+Qed.
+
+Lemma obj_remove_born w k :
+  exists ext, w_born (obj_remove w k) = w_born w ++ ext /\
+              (forall a' a, In a' ext -> find_agent (w_born w) k = Some a -> a_model a' = a_model a).
+Proof. apply obj_remove_f_born. Qed.
 
 Lemma obj_remove_find w k k' a : find_agent (w_born w) k' = Some a -> find_agent (w_born (obj_remove w k)) k' = Some a.
 Proof. intros H. destruct (obj_remove_born w k) as [ext [E _]]. rewrite E. apply find_agent_app. exact H. Qed.
 
+Lemma obj_remove_f_frame fuel j : forall w k,
+  (forall a, find_agent (w_born w) k = Some a -> a_model a <> j) ->
+  getm (w_models (obj_remove_f fuel w k)) j = getm (w_models w) j.
+Proof.
+  induction fuel as [|f IH]; intros w k H; simpl;
+    (destruct (find_agent (w_born w) k) as [a|] eqn:Ef; [|reflexivity]);
+    pose proof (H a eq_refl) as Hne;
+    (destruct (ov_of (a_cls a)) as [o|];
+     [|apply deregister_obj_frame; intros a0 Ha0; rewrite Ef in Ha0; inversion Ha0; subst; exact Hne]);
+    pose proof (ov_body_frame w k a o j Ef Hne) as Hb;
+    (destruct (ov_partner o); [|exact Hb]).
+  - exact Hb.
+  - destruct (partner_target (ov_body w k a o) k a) as [p|] eqn:Ep; [|exact Hb].
+    destruct (partner_target_spec _ _ _ _ Ep) as [b [Hfb Hmb]].
+    rewrite IH; [exact Hb|]. intros b0 Hb0. rewrite Hfb in Hb0. inversion Hb0; subst. congruence.
+Qed.
+
 Lemma obj_remove_frame w k j :
   (forall a, find_agent (w_born w) k = Some a -> a_model a <> j) ->
   getm (w_models (obj_remove w k)) j = getm (w_models w) j.
-Proof.
-  intros H. unfold obj_remove. destruct (find_agent (w_born w) k) as [a|] eqn:Ef; [|reflexivity].
-  assert (j <> a_model a) as Hne by (intros ->; exact (H a eq_refl eq_refl)).
-  destruct (ov_of (a_cls a)) as [o|].
-  2:{ apply deregister_obj_frame. intros a0 Ha0. rewrite Ef in Ha0. inversion Ha0; subst. congruence. }
-  rewrite creates_frame by exact Hne.
-  assert (getm (w_models (creates w (a_model a) (ov_pre o))) j = getm (w_models w) j) as E1 by (apply creates_frame; exact Hne).
-  destruct (ov_super o); [|exact E1].
-  unfold agent_remove. rewrite deregister_obj_frame; [exact E1|].
-  intros a0 Ha0. destruct (creates_born (a_model a) (ov_pre o) w) as [ext [Eb _]]. rewrite Eb in Ha0.
-  rewrite (find_agent_app _ ext _ _ Ef) in Ha0. inversion Ha0; subst. congruence.
-Qed.
+Proof. apply obj_remove_f_frame. Qed.
 
 Lemma fold_remove_frame l j : forall w,
   (forall k, In k l -> exists a, find_agent (w_born w) k = Some a /\ a_model a <> j) ->
